@@ -116,7 +116,9 @@ def site_problems(files, options):
     f = dict(files)
     if "page_dir" in options:
         f.update(PAGES)
-    with site.site(f, "src_dir: ./src\noutput_dir: ./doc\nextra_filetypes: c //!\n" + options) as (pd, status):
+    meta = ("src_dir: ./src\noutput_dir: ./doc\nextra_filetypes: c //!\nsummary: A summary that links to [[m]] and [[main]] and [home](|url|/index.html)\n"
+            "author: Somebody\nauthor_description: Wrote [[m]], see [the lists](|url|/index.html)\n")
+    with site.site(f, meta + options) as (pd, status):
         if not status.startswith("ok"):
             return [f"the run failed: {status}"], 0
         out = os.path.join(pd, "doc")
